@@ -6,12 +6,12 @@ CONSTANTS Quick, Shipped
 VARIABLES fam, inp, lines, i, st
 vars == <<fam, inp, lines, i, st>>
 Edited(d, f) == EditedDoc(d, f, Quick, 4)
-Cases == UNION {{<<AllDocs[k].fam, e, AllDocs[k].inter>> : e \in Edited(AllDocs[k].toks, AllDocs[k].fam)}
+Cases == UNION {{<<AllDocs[k].fam, e, AllDocs[k].inter, AllDocs[k].dtype = "continuous">> : e \in Edited(AllDocs[k].toks, AllDocs[k].fam)}
                 : k \in DocIdx("phylip") \cup DocIdx("fasta")}
 Init == \E c \in Cases : \E ign \in BOOLEAN :          \* reader option ignore_invalid_chars (PHYLIP)
           /\ (c[1] = "fasta" => ~ign)
           /\ fam = c[1] /\ inp = c[2] /\ lines = TextLines(c[2]) /\ i = 1
-          /\ st = IF c[1] = "phylip" THEN PhStart(TextLines(c[2]), c[3], ign) ELSE FaStart
+          /\ st = IF c[1] = "phylip" THEN PhStart(TextLines(c[2]), c[3], ign, c[4]) ELSE FaStart
 Step == /\ st.outcome = "none"
         /\ IF fam = "phylip"
            THEN IF i >= Len(lines) THEN st' = PhFinish(st, Shipped) /\ i' = i      \* line 1 is the description line
